@@ -8,7 +8,7 @@ SAVE=$(mktemp -d /verif/.cache/evsave.XXXXXX); cp -a evidence/. "$SAVE"/ 2>/dev/
 git -C /repo apply "$M/patch.diff" || { echo "apply failed"; exit 2; }
 VERIF_BUDGET_SCALE=$SCALE ./check.sh "$ID" $TIER > /tmp/seeded-run.log 2>&1; code=$?
 git -C /repo checkout -- . ; git -C /repo clean -fdq
-rules=$(grep -E "^violation |^data race in" /tmp/seeded-run.log | sed 's/^violation //' | cut -c1-120 | tr '\n' ';')
+rules=$(grep -a -E "^violation |^data race in" /tmp/seeded-run.log | sed 's/^violation //' | cut -c1-120 | tr '\n' ';')
 cp -a "$SAVE"/. evidence/ 2>/dev/null; rm -rf "$SAVE"
 rm -f /verif/replays/*.json
 echo "exit=$code $rules"
